@@ -103,11 +103,13 @@ type VC struct {
 	inlined  map[string]bool
 	noSafe   int // >0: suppress SAFE emission (spec evaluation)
 	enabled  map[string]bool
+	known    map[string]bool
+	seenObl  map[string]bool
 }
 
 func newVC(eng *Engine, name string, classes map[string]bool) *VC {
 	vc := &VC{eng: eng, name: name, declared: map[string]bool{}, comps: map[string]*Sort{}, entry: map[string]Term{},
-		classes: classes, oblCount: map[string]int{}, fset: eng.fset, usedExt: map[string]bool{}, usedSpec: map[string]bool{}, inlined: map[string]bool{}}
+		classes: classes, oblCount: map[string]int{}, fset: eng.fset, usedExt: map[string]bool{}, usedSpec: map[string]bool{}, inlined: map[string]bool{}, known: map[string]bool{}, seenObl: map[string]bool{}}
 	vc.A0 = vc.fresh("A0", SInt)
 	vc.fact(Ge(vc.A0, One))
 	return vc
@@ -152,6 +154,7 @@ func (vc *VC) fact(t Term) {
 		panic("fact of non-bool: " + t.S)
 	}
 	vc.facts = append(vc.facts, t)
+	vc.known[t.S] = true
 }
 
 func (vc *VC) unsupported(format string, a ...any) {
@@ -179,6 +182,16 @@ func (vc *VC) oblige(st *State, class, fn, detail string, pos token.Pos, goal Te
 	}
 	if goal.S == "true" {
 		return nil
+	}
+	if class == "SAFE" || class == "FRAME" || class == "OWN" {
+		if vc.known[goal.S] {
+			return nil
+		}
+		dk := class + "\x00" + st.reach.S + "\x00" + goal.S
+		if vc.seenObl[dk] {
+			return nil
+		}
+		vc.seenObl[dk] = true
 	}
 	key := fn + "/" + class + ":" + detail
 	ord := vc.oblCount[key]
@@ -266,13 +279,41 @@ func (vc *VC) havoc(st *State, name string) Term {
 	return c
 }
 
-func (vc *VC) alloc(st *State, hint string) Term {
+// alloc returns a fresh reference and records its dynamic kind (ghost
+// component Ty) so that invariants can quantify over objects of one kind.
+func (vc *VC) alloc(st *State, hint string, kind string) Term {
 	r := vc.fresh("r_"+hint, SInt)
 	vc.fact(Eq(r, st.alloc))
 	a := vc.fresh("A", SInt)
 	vc.fact(Eq(a, Add(st.alloc, One)))
 	st.alloc = a
+	vc.registerComp("Ty", SArr(SInt, SInt))
+	vc.set(st, "Ty", Store(vc.get(st, "Ty"), r, vc.kindTag(kind)))
 	return r
+}
+
+func (vc *VC) kindTag(kind string) Term {
+	id, ok := vc.eng.kindIDs[kind]
+	if !ok {
+		id = int64(len(vc.eng.kindIDs) + 1)
+		vc.eng.kindIDs[kind] = id
+	}
+	return IntT(id)
+}
+
+// kindOfComp maps a heap component to the allocation kind of its objects.
+func kindOfComp(name string) string {
+	parts := strings.SplitN(name, "|", 3)
+	if len(parts) < 2 {
+		return ""
+	}
+	switch parts[0] {
+	case "H", "C", "E":
+		return parts[0] + "|" + parts[1]
+	case "Md", "Ms", "Mv":
+		return "M|" + parts[1]
+	}
+	return ""
 }
 
 // join merges edge states into a block entry state.
